@@ -61,19 +61,21 @@ func NavigableSmallWorld(dst GraphBuilder, dims []int, p, q int, r float64, src 
 			if d == 0 || d > p {
 				return
 			}
-			vn := nodes[idxFromDelta(u, delta, dims, -p)]
-			if un.ID() > vn.ID() {
-				un, vn = vn, un
+			// from and to are local so that un remains
+			// the node at u for the remaining deltas.
+			from, to := un, nodes[idxFromDelta(u, delta, dims, -p)]
+			if from.ID() > to.ID() {
+				from, to = to, from
 			}
-			if !hasEdge(un.ID(), vn.ID()) {
-				dst.SetEdge(dst.NewEdge(un, vn))
+			if !hasEdge(from.ID(), to.ID()) {
+				dst.SetEdge(dst.NewEdge(from, to))
 			}
 			if !isDirected {
 				return
 			}
-			un, vn = vn, un
-			if !hasEdge(un.ID(), vn.ID()) {
-				dst.SetEdge(dst.NewEdge(un, vn))
+			from, to = to, from
+			if !hasEdge(from.ID(), to.ID()) {
+				dst.SetEdge(dst.NewEdge(from, to))
 			}
 		})
 	})
@@ -104,12 +106,12 @@ func NavigableSmallWorld(dst GraphBuilder, dims []int, p, q int, r float64, src 
 			if !ok {
 				panic("depleted distribution")
 			}
-			vn := nodes[vidx]
-			if !isDirected && un.ID() > vn.ID() {
-				un, vn = vn, un
+			from, to := un, nodes[vidx]
+			if !isDirected && from.ID() > to.ID() {
+				from, to = to, from
 			}
-			if !hasEdge(un.ID(), vn.ID()) {
-				dst.SetEdge(dst.NewEdge(un, vn))
+			if !hasEdge(from.ID(), to.ID()) {
+				dst.SetEdge(dst.NewEdge(from, to))
 			}
 		}
 		for i := range w {
